@@ -1247,6 +1247,8 @@ class Gen:
             o['explicit_none'] = self.rng.random() < 0.5
         else:
             o['sets'], o['S'] = self.settings()
+        if self.rng.random() < 0.06:
+            o['pat_astr'] = True
         self.do(o)
 
     def g_render8(self):
